@@ -28,6 +28,7 @@ pop_at = Function('pop_at', Seq, I, Seq)           # s.pop(i)
 ins_at = Function('ins_at', Seq, I, Name, Seq)     # s.insert(i, x) (python clamps i)
 empty = Const('empty', Seq)
 fold_add = Function('fold_add', Seq, Seq, I, Seq)  # fold_add(s, xs, k): add1 of xs[0..k-1] to s, in order
+keep = Function('keep', Seq, NSet, Seq)           # the elements of s that are in T, in the order of s
 infirst = Function('infirst', Seq, Name, I, B)     # infirst(xs, y, k): y = xs[t] for some 0 <= t < k
 w_infirst = Function('w.infirst', Seq, Name, I, I)
 setof = Function('setof', Seq, NSet)               # the set of elements
@@ -77,6 +78,10 @@ def axioms():
                                                         at(xs, w_infirst(xs, y, k)) == y)), [infirst(xs, y, k)])
     A('IF2', [xs, y, k, i], Implies(And(0 <= i, i < k, at(xs, i) == y), infirst(xs, y, k)),
       [MultiPattern(at(xs, i), infirst(xs, y, k))])
+    # keep (filter by a set): membership and duplicate-freeness
+    T = Const('T', NSet)
+    A('K1', [s, T, y], mem(keep(s, T), y) == And(mem(s, y), Select(T, y)), [mem(keep(s, T), y)])
+    A('K2', [s, T], Implies(nodup(s), nodup(keep(s, T))), [nodup(keep(s, T))])
     # setof: the set of elements
     A('T1', [s, x], Select(setof(s), x) == mem(s, x), [Select(setof(s), x)])
     return ax
